@@ -143,3 +143,33 @@ Fixpoint run_spec (diag : bool) (coords : list (string * nat)) (prev : mm)
 
 Definition agrees_run (o : KeyOrder) (r : rcase) : bool :=
   agrees_run_model o r && run_spec (r_diag r) (r_coords r) (r_init r) (r_epochs r) (r_obs r).
+
+(* ---------- whole engine runs: kernel sequence + epoch schedule --------------------------------
+   One chain of one engine run.  [g_kerns]: the kernel sequence in the order in which the kernels were
+   added (KOther for RW / Gibbs kernels) with the inverse mass matrix before the first epoch;
+   [g_epochs]: every epoch after INITIAL_VALUES but the last one, with its config and the chain the
+   engine recorded for it (emitted only for slow epochs, [] otherwise: the model does not read it);
+   [g_obs]: per epoch, per kernel, the matrix stored at the first iteration of the following epoch. *)
+Record ecase := mkEng {
+  g_kerns : list (kern * mm);
+  g_epochs : list (econf * history);
+  g_obs : list (list mm)
+}.
+
+Definition eng_state (o : KeyOrder) (g : ecase) (n : nat) : option (list (kern * kstate)) :=
+  option_map fst
+    (engine_run (fun _ => 1) o (map (fun km => (fst km, mkK 1 (snd km))) (g_kerns g)) []
+                (firstn n (g_epochs g))).
+
+Definition kern_close (p : kern * kstate) (m : mm) : bool :=
+  match fst p with
+  | KMM _ _ => mm_close (imm (snd p)) m
+  | KOther => true
+  end.
+
+Definition agrees_engine (o : KeyOrder) (g : ecase) : bool :=
+  Nat.eqb (length (g_obs g)) (length (g_epochs g))
+  && forallb (fun nob => match eng_state o g (S (fst nob)) with
+                         | Some ks => forall2b kern_close ks (snd nob)
+                         | None => false
+                         end) (indexed (g_obs g)).
